@@ -1,0 +1,86 @@
+//go:build verif
+
+// Contracts for govc (/verif): C16 "Transactions that validate together can always be finalized" — storage part, scoped as in
+// DESIGN.md §4 C16 (deposits, mints, transfers, withdrawal submissions and claims; node and custodian operations are out of scope).
+// Comment-only file. One contract per function: the C16 clauses of finalizeTransaction, writeTotalInAsset, writeAssetInfo, UnspentOutputs
+// (`nopanic when` conditions FinalizePre / TotalPre and the [c16-accepts] clauses) are in zz_contracts_c15_verif.go and
+// common/zz_contracts_c17_verif.go; those of lockGhostKey, writeUTXO, writeWithdrawalClaim in zz_contracts_c04_verif.go.
+
+package storage
+
+//@ -- (WithdrawalKeyId, graphWithdrawalClaimKey: zz_contracts_keyspace_verif.go)
+
+//@ -- ClaimPre: the submission a withdrawal claim refers to is stored and finalized (with a well-formed 32-byte record)
+//@ spec ClaimPre(t badger.Txn, ref crypto.Hash) bool = HasTx(t, ref) && Finalized(t, ref) && badger.vallen(badger.kvget(t, FK(ref))) == 32
+
+//@ func readTransactionAndFinalization
+//@   property C16
+//@   requires txn != nil
+//@   nopanic when Finalized(*txn, hash) ==> badger.vallen(badger.kvget(*txn, FK(hash))) == 32 -- it panics on a FINALIZATION record that is not 32 bytes long
+//@   modifies nothing
+//@   ensures [absent] !HasTx(*txn, hash) ==> result0 == nil && err == nil
+//@   ensures [present] HasTx(*txn, hash) && err == nil ==> result0 != nil
+//@   ensures [not-finalized] err == nil && !Finalized(*txn, hash) ==> len(result1) == 0
+//@   ensures [finalized] err == nil && result0 != nil && Finalized(*txn, hash) ==> len(result1) == 64
+//@   ensures [errors] err != nil ==> badger.iofail(err) || !TxValWf(badger.kvget(*txn, TK(hash)))
+
+//@ -- ═════════ the C16 lemmas: ValidatePost(kv, t1) && ValidatePost(kv, t2) && Compatible(t1, t2) ==> FinalizePre(Apply(kv, t1), t2) ═════════
+//@ -- kv is the ledger state the snapshot was signed on. ValidatePost is what the PROVED postconditions of the validators say about kv
+//@ -- (common.verifyDepositData [c16-amount] [c16-capacity] [c16-asset], common.validateReferences [c16-refs-final], C01 conservation);
+//@ -- FinalizePre is the PROVED no-panic condition of finalizeTransaction (TotalAdmits / ClaimPre / asset info). The lemmas are closed
+//@ -- arithmetic statements over the quantities these contracts talk about; Apply(kv, t1) is t1's proved effect on the total (C17).
+//@ -- total: ASSETTOTAL of the asset in kv; cap: its capacity.
+
+//@ -- one deposit, finalized on the state it was validated on: admitted (strict < at validation, <= at finalization)
+//@ lemma DepositFinalizable(total int, d int, cap int)
+//@   property C16
+//@   requires 0 <= total && d > 0 && total + d < cap -- verifyDepositData[c16-amount], [c16-capacity]
+//@   ensures [admitted] d > 0 && total + d <= cap -- TotalAdmits, deposit clause
+
+//@ -- F5. Two deposits of one asset, both validated on kv (several pending deposits of the same asset; deposits are batchable, so they may even
+//@ -- sit in ONE snapshot): Compatible(t1, t2) = different deposit slots (C03) of the same asset; no batch rule relates their amounts.
+//@ -- EXPECTED UNDISCHARGED: total = 2000, d1 = d2 = 300, cap = 2500 (BTC): each 2300 < 2500, together 2600 > 2500: the second
+//@ -- writeTotalInAsset panics (reproduced on the real code: design-probes/c16_deposit_capacity_probe_test.go.txt).
+//@ lemma DepositsFinalizable(total int, d1 int, d2 int, cap int)
+//@   property C16
+//@   requires 0 <= total && d1 > 0 && total + d1 < cap -- ValidatePost(kv, t1)
+//@   requires d2 > 0 && total + d2 < cap -- ValidatePost(kv, t2)
+//@   ensures [second-admitted] d2 > 0 && (total + d1) + d2 <= cap -- FinalizePre(Apply(kv, t1), t2): TotalAdmits on total + d1 (writeTotalInAsset[deposit])
+
+//@ -- Two deposits that REGISTER an asset id (no ASSETINFO record in kv): verifyDepositData returns nil before looking at the asset info
+//@ -- (`old == nil`), and nothing ties tx.Asset to (Chain, AssetKey). Compatible(t1, t2) = same asset id, different deposit slots.
+//@ -- chain_i / key_i: value ids of the two deposits' Chain and AssetKey. FinalizePre(Apply(kv, t1), t2) needs the info t1 registered to agree
+//@ -- with t2's (writeAssetInfo[mismatch-refused] returns an error otherwise, and the error is fatal in kernel.TopoWrite).
+//@ -- EXPECTED UNDISCHARGED (any chain1 != chain2): reproduced on the real code, see the C16 report / findings (two custodian-signed deposits
+//@ -- of a new asset id with AssetKey "key-one" / "key-two": both Validate => nil, second finalization => "invalid asset info").
+//@ lemma DepositsAgreeOnNewAsset(known int, chain1 int, key1 int, chain2 int, key2 int)
+//@   property C16
+//@   requires known == 0 -- the asset id has no ASSETINFO record in kv: ValidatePost says nothing about chain/key ([c16-asset] is conditional on LedgerHasAsset)
+//@   ensures [second-accepted] chain1 == chain2 && key1 == key2
+
+//@ -- when the asset is known in kv both deposits carry the recorded info, hence agree (verifyDepositData[c16-asset])
+//@ lemma DepositsAgreeOnKnownAsset(chain int, key int, chain1 int, key1 int, chain2 int, key2 int)
+//@   property C16
+//@   requires chain1 == chain && key1 == key && chain2 == chain && key2 == key
+//@   ensures [second-accepted] chain1 == chain2 && key1 == key2
+
+//@ -- Withdrawal submissions. ValidatePost: the inputs are unspent outputs locked by the transaction (C03), conservation (C01): spent == mat + submit.
+//@ -- Compatible: disjoint inputs (C03: a slot is locked by at most one transaction), so spent1 + spent2 <= U. total == U is C17's invariant on kv.
+//@ lemma SubmitsFinalizable(total int, U int, cap int, spent1 int, mat1 int, s1 int, spent2 int, mat2 int, s2 int)
+//@   property C16
+//@   requires total == U && total <= cap && 0 <= spent1 && 0 <= spent2 && spent1 + spent2 <= U
+//@   requires 0 <= mat1 && s1 > 0 && spent1 == mat1 + s1 && 0 <= mat2 && s2 > 0 && spent2 == mat2 + s2
+//@   ensures [first-admitted] s1 <= total && total - s1 <= cap
+//@   ensures [second-admitted] s2 <= total - s1 && (total - s1) - s2 <= cap -- TotalAdmits on Apply(kv, t1): total - s1 (writeTotalInAsset[submit])
+
+//@ -- Mints. validateMint does not look at the asset capacity: that total + amount <= cap is NOT part of ValidatePost; it holds by the mint
+//@ -- schedule (C25) against the XIN capacity constant, which is a hypothesis here (one mint per batch: mints are not batchable).
+//@ lemma MintFinalizable(total int, m int, cap int)
+//@   property C16
+//@   requires 0 <= total && m > 0 && total + m <= cap -- hypothesis: mint schedule vs capacity table, not established by Validate
+//@   ensures [admitted] m > 0 && total + m <= cap
+
+//@ -- Transfers, claims (OtherShape): writeTotalInAsset writes nothing and TotalAdmits is vacuous; what remains of FinalizePre is
+//@ -- HasAssetInfo (store invariant: an asset with outputs was registered by the deposit or genesis load that created them) and, for a claim,
+//@ -- ClaimPre = its reference is stored and finalized: common.validateReferences[c16-refs-final] (proved). Ghost keys: the outputs' keys
+//@ -- were bound to the transaction by LockGhostKeys during Validate (C04), lockGhostKey[c16-accepts] accepts an own binding. No arithmetic content.
